@@ -55,6 +55,19 @@ def run(ctx):
     must = [b for b in pick3 if has(b, "cut", [("U", "eA:pt"), ("U", "eB:pt")]) or has(b, "disable", [("D", "eB:pt"), ("U", "eB:pt")])
             or has(b, "disable", [("D", "eA:pt"), ("D", "eB:pt")]) or has(b, "cut", [("D", "eA:pt"), ("U", "eA:pt")])]
     scheds += (must + [b for b in pick3 if b not in must])[:max(n3, len(must))]
+    # node B mirrored below the device; during the outage only the edge points of its placement below A change
+    g4 = vlib.run_tlc(ctx.sc, "Gen_Sync", "Gen_Sync_ept.cfg", collect_json=True, workers=1, timeout=3000)   # all of them (BFS)
+    n4 = 3 if t == "quick" else 30
+    seen4, pick4 = set(), []
+    for b in g4.lines:
+        k = (next((o["how"] for o in b["ops"] if o["op"] == "down"), ""),
+             tuple(sorted({(o["side"], o["id"], o["del"]) for o in b["ops"] if o["op"] == "write"})))
+        if k[0] != "restart" and k not in seen4:
+            seen4.add(k)
+            pick4.append(b)
+    pick4.sort(key=lambda b: (len({(o["side"], o["id"]) for o in b["ops"] if o["op"] == "write"}),
+                              sum(1 for o in b["ops"] if o["op"] == "write" and o["id"].endswith("tomb"))))
+    scheds += pick4[:n4]
     p = ctx.sc.path("c02.jsonl")
     with open(p, "w") as f:
         for s in scheds:
